@@ -31,7 +31,7 @@ package unserializers
 
 //@ func CDX.Unserialize
 //@   props C04
-//@   assigns \nothing
+// (no assigns clause: the frame of this function is not claimed; the interface contract of native.Unserializer is what callers use)
 //@   invariant L1: doc != nil && fresh(doc) && doc.NodeList != nil && fresh(doc.NodeList) && sbom.validNL(doc.NodeList) && doc.Metadata != nil
 //@   ensures [C04:unserialize:oneOf] (result1 == nil) != (result0 == nil)
 //@   ensures [C04:unserialize:complete] result1 == nil ==> result0.Metadata != nil && result0.NodeList != nil
@@ -47,10 +47,18 @@ package unserializers
 //@   invariant L0: (arr(nl.Nodes) == nil || fresh(arr(nl.Nodes))) && (arr(nl.Edges) == nil || fresh(arr(nl.Edges))) && (arr(nl.RootElements) == nil || fresh(arr(nl.RootElements)))
 
 //@ func SPDX23.Unserialize
-//@   props C04
+//@   props C04, C03
 //@   assigns \nothing
 //@   ensures [C04:unserialize:oneOf] (result1 == nil) != (result0 == nil)
 //@   ensures [C04:unserialize:complete] result1 == nil ==> result0.Metadata != nil && result0.NodeList != nil
+//@   ensures [C03:spdx:read:packages] result1 == nil ==> (forall i int :: 0 <= i && i < len(spdxdoc(r).Packages) && spdxdoc(r).Packages[i] != nil ==> (spdxdoc(r).Packages[i].PackageSPDXIdentifier in fieldset(result0.NodeList.Nodes, Id)))
+//@   ensures [C03:spdx:read:files] result1 == nil ==> (forall i int :: 0 <= i && i < len(spdxdoc(r).Files) && spdxdoc(r).Files[i] != nil ==> (spdxdoc(r).Files[i].FileSPDXIdentifier in fieldset(result0.NodeList.Nodes, Id)))
+//@   invariant L1: bom != nil && fresh(bom) && bom.NodeList != nil && fresh(bom.NodeList) && (cap(bom.NodeList.Nodes) == 0 || fresh(arr(bom.NodeList.Nodes))) && (cap(bom.NodeList.Edges) == 0 || fresh(arr(bom.NodeList.Edges))) && (cap(bom.NodeList.RootElements) == 0 || fresh(arr(bom.NodeList.RootElements)))
+//@   invariant L2: bom != nil && fresh(bom) && bom.NodeList != nil && fresh(bom.NodeList) && (cap(bom.NodeList.Nodes) == 0 || fresh(arr(bom.NodeList.Nodes))) && (cap(bom.NodeList.Edges) == 0 || fresh(arr(bom.NodeList.Edges))) && (cap(bom.NodeList.RootElements) == 0 || fresh(arr(bom.NodeList.RootElements)))
+//@   invariant L3: bom != nil && fresh(bom) && bom.NodeList != nil && fresh(bom.NodeList) && (cap(bom.NodeList.Nodes) == 0 || fresh(arr(bom.NodeList.Nodes))) && (cap(bom.NodeList.Edges) == 0 || fresh(arr(bom.NodeList.Edges))) && (cap(bom.NodeList.RootElements) == 0 || fresh(arr(bom.NodeList.RootElements)))
+//@   invariant L1: [C03:inv] spdxDoc == spdxdoc(r) && bom != nil && bom.NodeList != nil && (forall i int :: 0 <= i && i < _i && spdxDoc.Packages[i] != nil ==> (spdxDoc.Packages[i].PackageSPDXIdentifier in fieldset(bom.NodeList.Nodes, Id)))
+//@   invariant L2: [C03:inv] spdxDoc == spdxdoc(r) && bom != nil && bom.NodeList != nil && (forall i int :: 0 <= i && i < len(spdxDoc.Packages) && spdxDoc.Packages[i] != nil ==> (spdxDoc.Packages[i].PackageSPDXIdentifier in fieldset(bom.NodeList.Nodes, Id))) && (forall i int :: 0 <= i && i < _i && spdxDoc.Files[i] != nil ==> (spdxDoc.Files[i].FileSPDXIdentifier in fieldset(bom.NodeList.Nodes, Id)))
+//@   invariant L3: [C03:inv] spdxDoc == spdxdoc(r) && bom != nil && bom.NodeList != nil && (forall i int :: 0 <= i && i < len(spdxDoc.Packages) && spdxDoc.Packages[i] != nil ==> (spdxDoc.Packages[i].PackageSPDXIdentifier in fieldset(bom.NodeList.Nodes, Id))) && (forall i int :: 0 <= i && i < len(spdxDoc.Files) && spdxDoc.Files[i] != nil ==> (spdxDoc.Files[i].FileSPDXIdentifier in fieldset(bom.NodeList.Nodes, Id)))
 
 // ---------------------------------------------------------------------------
 // C01: where each attribute of an SPDX package lands in the node (reader side)
@@ -67,3 +75,13 @@ package unserializers
 //@   ensures [C01:spdx:node:scalars] result != nil && spdxNodeOf(result, p)
 //@   ensures [C01:spdx:node:licenseConcluded] result.LicenseConcluded == ((p.PackageLicenseConcluded != "NOASSERTION" && p.PackageLicenseConcluded != "") ? p.PackageLicenseConcluded : "")
 //@   ensures [C01:spdx:node:people] (p.PackageSupplier != nil && p.PackageSupplier.Supplier != "NOASSERTION" ==> len(result.Suppliers) == 1 && result.Suppliers[0] != nil && result.Suppliers[0].Name == p.PackageSupplier.Supplier && (result.Suppliers[0].IsOrg <==> p.PackageSupplier.SupplierType == "Organization")) && (p.PackageOriginator != nil && p.PackageOriginator.Originator != "NOASSERTION" && p.PackageOriginator.Originator != "" ==> len(result.Originators) == 1 && result.Originators[0] != nil && result.Originators[0].Name == p.PackageOriginator.Originator && (result.Originators[0].IsOrg <==> p.PackageOriginator.OriginatorType == "Organization"))
+
+//@ pred spdxFileNodeOf(m *sbom.Node, f *v2_3.File) = m.Id == f.FileSPDXIdentifier && m.Type == 1 && m.Name == f.FileName && m.LicenseConcluded == f.LicenseConcluded && m.LicenseComments == f.LicenseComments && m.Copyright == f.FileCopyrightText && m.Comment == f.FileComment && m.FileTypes == f.FileTypes && m.Licenses == f.LicenseInfoInFiles
+
+//@ lemma spdxFileScalarsRoundTrip [C01]: forall f *v2_3.File, n *sbom.Node, m *sbom.Node :: f != nil && n != nil && m != nil && serializers.spdxFileOf(f, n) && spdxFileNodeOf(m, f) ==> m.Id == n.Id && m.Type == 1 && m.Name == n.Name && m.LicenseConcluded == n.LicenseConcluded && m.LicenseComments == n.LicenseComments && m.Comment == n.Comment && m.FileTypes == n.FileTypes
+
+//@ func SPDX23.fileToNode
+//@   props C01
+//@   inline
+//@   requires [C01:pre] f != nil
+//@   ensures [C01:spdx:filenode:scalars] result != nil && spdxFileNodeOf(result, f)
